@@ -132,6 +132,7 @@ GenIx(m) == Indices(m)
             \cup {Ix(f - 1, <<Len(m.fns[f])>>) : f \in 1..Len(m.fns)}
             \cup {Ix(f - 1, <<Len(m.fns[f]) + 1>>) : f \in 1..Len(m.fns)}
             \cup {Ix(Len(m.fns), <<0>>)}
+            \cup {Ix(f - 1, <<>>) : f \in 1..Len(m.fns)}      \* a function, but no card in it
 NewCards == {Leaf(90), Card(91, "list", <<Leaf(92)>>), Card(93, "fix2", <<Leaf(94), Leaf(95)>>)}
 GenOps(m) ==
        {Op("get", a, NoIx, NoCard) : a \in GenIx(m)}
